@@ -119,6 +119,7 @@ let () =
           let b = Buffer.create 256 in
           Buffer.add_string b (if me then "M1" else "M0");
           Buffer.add_string b (if se then " S1" else " S0");
+          if not (dispatch_wf prop i) then Buffer.add_string b " W0";
           if not me then (Buffer.add_char b ' '; print b m);
           Buffer.contents b
         with
